@@ -276,6 +276,8 @@ def build_universe(thorough=False):
     # shapes and layouts
     add('arr-0d-float', np.array(3.5), A)
     add('arr-0d-int', np.array(7), A)
+    add('arr-0d-zero', np.array(0), A)                 # falsy values: `if value:` / `is not None` shortcuts
+    add('arr-0d-false', np.array(False), A)
     add('arr-empty-1d', np.zeros((0,)), A)
     add('arr-empty-0x3', np.zeros((0, 3), dtype=np.int16), A)
     add('arr-empty-2x0x3', np.zeros((2, 0, 3)), A)
@@ -313,6 +315,9 @@ def build_universe(thorough=False):
     add('np.float16(0.1)', np.float16(0.1))
     add('np.float64(nan)', np.float64('nan'))
     add('np.bool_(True)', np.bool_(True))
+    add('np.bool_(False)', np.bool_(False))
+    add('np.float64(0.0)', np.float64(0.0))
+    add('np.int64(0)', np.int64(0))
     add('np.complex64', np.complex64(1 + 2j))
     add('np.str_', np.str_('x'))
     add('np.bytes_', np.bytes_(b'y'))
@@ -1072,7 +1077,7 @@ def run(ck):
                 ops = [('dump', 1, vi), ('load', 1), ('can_load', 1)]
                 if opts.get('pack'):
                     # compress_numpy off: a complete pack; on: a pack killed before its first unlink
-                    ops += [('pack_crash', 0) if comp else ('pack',), ('load', 1)]
+                    ops += [('pack_crash', 0) if comp else ('pack',), ('load', 1), ('can_load', 1), ('list',)]
                 if name != 'dict':
                     ops += [('reopen',), ('load', 1)]
                 ops += [('list',), [('remove', 1), ('remove_many', [1, 2]), ('cleanup', [2])][vi % 3], ('can_load', 1)]
